@@ -125,7 +125,8 @@ func propC14(c lcCase, o *hx.Obs) *hx.Failure {
 				last = &searches[i]
 			}
 		}
-		return last != nil && n < acc && !last.limits.SelfTerminating() && last.stopAt.IsZero() && last.definite
+		// (a ponder search that got its ponderhit ends by its timer: not "running forever")
+		return last != nil && n < acc && !last.limits.SelfTerminating() && last.stopAt.IsZero() && last.hitAt.IsZero() && last.definite
 	}
 	startWhileRunning, quickRestart, ponderhits, stopWithTimer := false, false, false, false
 	// true while a search that does not end by itself may be running (sound for "may": set on every
@@ -230,12 +231,16 @@ func propC14(c lcCase, o *hx.Obs) *hx.Failure {
 			}
 		case "ponderhit":
 			mu.Lock()
-			if n := len(searches); n > 0 && searches[n-1].limits.Mode == "ponder" && searches[n-1].hitAt.IsZero() {
-				searches[n-1].hitAt = time.Now()
-				ponderhits = true
-				if searches[n-1].definite && n == 1+countBefore(searches, n-1) {
-					mayRunForever = false
+			// the ponderhit belongs to the search that may be running: the last start that was not certainly rejected
+			for k := len(searches) - 1; k >= 0; k-- {
+				if searches[k].rejected {
+					continue
 				}
+				if searches[k].limits.Mode == "ponder" && searches[k].hitAt.IsZero() {
+					searches[k].hitAt = time.Now()
+					ponderhits = true
+				}
+				break
 			}
 			mu.Unlock()
 			if !callWithWatchdog(s.PonderHit, watchdog) {
